@@ -70,6 +70,7 @@ type domain struct {
 	g         []int // choices for the number of simultaneous executions
 	elemFault float64
 	sleepy    float64
+	gate      float64
 }
 
 func domainFor(prop string) domain {
@@ -91,6 +92,7 @@ func domainFor(prop string) domain {
 		d.cancel, d.pFault, d.perUnit = 1, 0.2, 0.2
 	case "C11":
 		d.pFault, d.perUnit, d.panics, d.predFalse, d.predPanic = 0.7, 0.4, 0.4, 0.35, 0.2
+		d.gate = 0.6
 	case "C18":
 		d.pFault, d.perUnit, d.panics, d.predFalse, d.predPanic = 0.7, 0.35, 0.4, 0.3, 0.15
 	case "C12":
@@ -182,6 +184,19 @@ func genScenario(t *rapid.T, s *rt.Spec, d domain) *rt.Scenario {
 	}
 	scn.N = 1 + uniform(t, "n", 4)
 	scn.COE = uniform(t, "coe", 2) == 0
+	if d.gate > 0 && !faulty && s.Kind == "flow" && prob(t, "gate", d.gate) {
+		if cands := rt.GateCandidates(s); len(cands) > 0 && !strings.HasPrefix(s.Conc, "const:1") {
+			c := cands[uniform(t, "gatecand", len(cands))]
+			scn.GateU, scn.GateFor = c[0]+1, c[1]+1
+			if scn.N < 2 {
+				scn.N = 2
+			}
+			// everything must actually run: no false predicates upstream
+			for u := range scn.Pred {
+				scn.Pred[u] = rt.PTrue
+			}
+		}
+	}
 	scn.G = d.g[uniform(t, "g", len(d.g))]
 	if prob(t, "cancel", d.cancel) {
 		switch uniform(t, "cancelkind", 4) {
@@ -464,6 +479,12 @@ func TestInner(t *testing.T) {
 						}
 						if logf != nil {
 							ll := map[string]interface{}{"h": scnHash(s, scn), "prog": s.Name, "faults": len(res.runs[0].Env.Injected), "g": scn.G}
+							if scn.GateU > 0 {
+								ll["gate"] = true
+							}
+							if scn.CancelK != rt.CNone {
+								ll["cancel"] = scn.CancelK
+							}
 							var op []string
 							for _, f := range other {
 								op = append(op, f.Prop)
